@@ -67,6 +67,17 @@ ENSURES(G_mc < n IMPLIES (G_mcmp_ak == ((const uint8_t *)a)[G_mc] && G_mcmp_bk =
 /* equal ranges agree at every index */
 ENSURES((RET == 0 && G_mc < n) IMPLIES ((const uint8_t *)a)[G_mc] == ((const uint8_t *)b)[G_mc])
 ;
+#ifdef CONTRACT_SECURE_MEMCMP_RECORDING
+/* the library's constant-time comparison is an equally acceptable way to compare a tag: same record */
+int gmssl_secure_memcmp(const volatile void *a, const volatile void *b, size_t n)
+REQUIRES(n == 0 || (RD_OK((const void *)a, n) && RD_OK((const void *)b, n)))
+ASSIGNS(G_mcmp_last, G_mcmp_n, G_mcmp_a, G_mcmp_b, G_mcmp_calls, G_mcmp_ak, G_mcmp_bk, G_seq, G_mcmp_seq)
+ENSURES(G_mcmp_last == RET && G_mcmp_n == n && G_mcmp_a == (size_t)a && G_mcmp_b == (size_t)b && G_mcmp_calls == OLD(G_mcmp_calls) + 1)
+ENSURES(G_seq == OLD(G_seq) + 1 && G_mcmp_seq == G_seq)
+ENSURES(G_mc < n IMPLIES (G_mcmp_ak == ((const uint8_t *)a)[G_mc] && G_mcmp_bk == ((const uint8_t *)b)[G_mc]))
+ENSURES((RET == 0 && G_mc < n) IMPLIES ((const uint8_t *)a)[G_mc] == ((const uint8_t *)b)[G_mc])
+;
+#endif
 #else
 int memcmp(const void *a, const void *b, size_t n)
 REQUIRES(n == 0 || (RD_OK(a, n) && RD_OK(b, n)))
